@@ -509,6 +509,7 @@ func runC13(c *Ctx) {
 	}()
 
 	ruleThresholds(c, p, "C13.thresholds")
+	ruleCustomFlag(c, p, "C13.custom")
 	{
 		c.R.Rule("C13.messages", "E2 containment and gate provenance (as C17.shape / C17.gates) for every protocol message at every revision sample: each packet is encoded and decoded with exactly the fields the negotiated revision defines")
 		pairs := messagePairs(p)
@@ -829,6 +830,41 @@ func runC13(c *Ctx) {
 			c.R.Ok(rule, core.FuncName(si), cfg, p.Pos(si.Pos()), "returns Client.server")
 		} else {
 			c.R.Bad(rule, core.FuncName(si), cfg, p.Pos(si.Pos()), "ServerInfo does not return the decoded server hello")
+		}
+	}
+	// nothing but the decoder writes the stored server hello
+	{
+		nW, badW := 0, false
+		for _, fn := range p.Funcs() {
+			if pkgOf(fn) == nil || pkgOf(fn).Path() != core.PkgCh {
+				continue
+			}
+			for _, b := range fn.Blocks {
+				for _, in := range b.Instrs {
+					st, ok := in.(*ssa.Store)
+					if !ok {
+						continue
+					}
+					root := st.Addr
+					depth := 0
+					for {
+						if fa, ok := root.(*ssa.FieldAddr); ok {
+							if core.IsNamed(fa.X.Type(), core.PkgCh, "Client") && fieldNameOnly(fa.X.Type(), fa.Field) == "server" {
+								nW++
+								badW = true
+								c.R.Bad(rule, core.FuncName(fn)+"/server-write", cfg, p.Pos(st.Pos()), "the stored server hello (Client.server) is modified after it was decoded: ServerInfo() no longer reports the identity as sent (revision, name, features)")
+							}
+							root = fa.X
+							depth++
+							continue
+						}
+						break
+					}
+				}
+			}
+		}
+		if !badW {
+			c.R.Ok(rule, "Client.server/immutable", cfg, "", "no store to Client.server or its fields in package ch (it is filled by decode only)")
 		}
 	}
 	// the decode target of the hello is Client.server
